@@ -11,6 +11,7 @@
 #include <math.h>
 #include <stdio.h>
 #include <string.h>
+#include <unistd.h>
 #include <vnacal.h>
 #include "vf.h"
 #include "calsim.h"
@@ -62,6 +63,7 @@ static long count(int tier)
 static void run(int tier, long idx, vf_result *r)
 {
     static cs_scenario sc;
+    const long idx_for_file = idx;
     int fill = fillers[vf_digit(&idx, NFILL)];
     int net = vf_digit(&idx, nnet(tier));
     int nf = vf_digit(&idx, nnf(tier)) + 1;
@@ -200,6 +202,43 @@ static void run(int tier, long idx, vf_result *r)
 		    "residual %.3Le", tr);
 	    goto out;
 	}
+    }
+    /*
+     * "the error terms written by vnacal_save satisfy the documented
+     * equation": for the shapes apply does not accept, and for every eighth
+     * case of the others, the calibration goes through a file (lossless hex
+     * and 9-digit decimal output in turn) and the terms of the loaded copy
+     * are judged like the solved ones.
+     */
+    if (!cs_apply_ok(&sc.vna) || (idx_for_file & 7) == 0) {
+	const int hex = (int)((idx_for_file >> 3) & 1);
+	const char *path = vf_tmp("c01.vnacal");
+	vnacal_t *v2 = NULL;
+	long double tr = 0;
+	int c2 = -1;
+	if (vnacal_set_dprecision(vcp, hex ? VNACAL_MAX_PRECISION : 9) != 0 ||
+		vnacal_save(vcp, path) != 0 ||
+		(v2 = vnacal_load(path, (vnaerr_error_fn_t *)vf_errfn,
+				  &elog)) == NULL ||
+		(c2 = vnacal_find_calibration(v2, "c01")) < 0 ||
+		cs_terms_residual(v2, c2, &sc, &tr) != 0) {
+	    vf_fail(r, "terms-file", "saving and loading the calibration "
+		    "failed: %s", elog.count ? elog.msg[0] : "?");
+	} else if (!(tr <= (hex ? 1e-8L : 1e-6L))) {
+	    char sig[100];
+	    snprintf(sig, sizeof(sig), "terms-equation-file:%s",
+		    vnacal_type_to_name(types[t]));
+	    vf_fail(r, sig, "the error terms written by vnacal_save (%s "
+		    "output) violate the documented M/S matrix equation for "
+		    "an added standard: relative residual %.3Le", hex ?
+		    "lossless" : "9-digit", tr);
+	}
+	if (v2 != NULL)
+	    vnacal_free(v2);
+	unlink(path);
+	++r->transitions;
+	if (r->status != VF_OK)
+	    goto out;
     }
     if (!cs_apply_ok(&sc.vna)) {
 	vf_outcome(r, "solved %s, terms satisfy the documented equation "
